@@ -816,4 +816,31 @@ theorem connectLoop_returns_on_ctx_pick (p : PD) (pre : List Wake) (w : Wake) (p
           · exact ih _
         · simp
 
+/-! ### example scripts (used by the non-vacuity examples of Props/C14) -/
+
+/-- a script used by the non-vacuity examples: the first address is refused after a writable
+wake-up (SO_ERROR = ECONNREFUSED), the second gets EADDRNOTAVAIL once, a spurious wake-up
+(SO_ERROR = 0, getpeername fails), writable + hang-up at once, and finally connects. -/
+def exRefused : AddrScript :=
+  { tcp := { att := fun _ => { fd := 7, wakes := [{ evs := [.writable], soerr := ECONNREFUSED }] } } }
+def exRetryThenOk : AddrScript :=
+  { tcp := { att := fun i =>
+      if i = 0 then { fd := 8, e0 := EADDRNOTAVAIL }
+      else { fd := 9, wakes := [{ evs := [.writable], soerr := 0, peerOk := false },
+                                { evs := [.writable, .writable], soerr := EINPROGRESS },
+                                { evs := [], soerr := 0, peerOk := true }],
+             late := [.hup] } } }
+/-- the deadline fires while the connect is pending; a writable event is still in flight -/
+def exTimeout : AddrScript :=
+  { tcp := { att := fun _ => { fd := 5, wakes := [{ evs := [] }, { evs := [.ctxDone .deadline, .writable], pick := .c }],
+                               late := [.writable, .hup] } } }
+
+theorem fdsOk_ex : FdsOk [exRefused, exRetryThenOk, exTimeout] := by
+  intro a ha i
+  simp only [List.mem_cons, List.not_mem_nil, or_false] at ha
+  rcases ha with rfl | rfl | rfl
+  · simp [exRefused]
+  · simp only [exRetryThenOk]; split <;> decide
+  · simp [exTimeout]
+
 end Netpoll.Dial
